@@ -188,7 +188,13 @@ def run(prop, tier, seed, replay, scratch, t0):
     for i, c in enumerate(cases): c['id'] = i
     fresh = getattr(mod, 'FRESH', False)
     ir = impl.run_cases(cases, fresh=fresh)
-    mr = corr.run_model(cases) if build['dmodel_ok'] else [None] * len(cases)
+    if build['dmodel_ok']:
+        sel = [i for i, c in enumerate(cases) if not c.get('meta', {}).get('nocorr') and c.get('op') in ('compile', 'compile_file', 'parse', 'tokenize')]
+        got = corr.run_model([cases[i] for i in sel])
+        mr = [None] * len(cases)
+        for i, r in zip(sel, got): mr[i] = r
+    else:
+        mr = [None] * len(cases)
 
     failures = mod.oracle(cases, ir)                    # [{idx, msg, sig}]
     diffs = []
